@@ -345,7 +345,7 @@ impl Prop for C19 {
     fn plan(tier: Tier) -> Plan {
         Plan {
             shards: tier.pick(4, 16),
-            cases_per_shard: tier.pick(2_000, 15_000),
+            cases_per_shard: tier.pick(2_000, 45_000),
             watchdog: StdDuration::from_secs(tier.pick(300, 3600)),
         }
     }
